@@ -54,9 +54,12 @@ def install(all_modules=True):
                     setattr(holder, k, type(v)(symre.Pattern(x.pattern, x.flags & ~re.U) for x in v))
 
 
-def boot(repo="/repo"):
+def boot(repo=None):
     """one call: loader + all rope modules + shims.  Returns nothing; idempotent."""
+    import os
     from . import loader
+
+    repo = repo or os.environ.get("ROPE_REPO", "/repo")
 
     if repo not in sys.path:
         sys.path.insert(0, repo)
